@@ -1,14 +1,20 @@
 #!/bin/bash
-# dev helper: apply a patch to /repo's working tree, run the given checks, restore.
-# usage: ./mutcheck.sh <patch> C01 C02 ...
+# dev helper: apply a patch to the repository's working tree, run the given checks, restore.
+# usage: ./mutcheck.sh <patch (absolute path)> C01 C02 ...
+# Works on /repo and this directory; in a `vp run --with-repo` snapshot it works on $VP_RUN_REPO / VERIF_REPO
+# and on the snapshot's own checks (so it neither disturbs nor is disturbed by work in /verif and /repo).
 patch=$1; shift
-cd /repo && git diff --quiet || { echo "repo dirty"; exit 2; }
-# a patch written against an older /repo: fall back to a 3-way merge on the recorded blob ids
-git -C /repo apply "$patch" 2>/dev/null || git -C /repo apply --3way "$patch" >/dev/null 2>&1 || { git -C /repo checkout -q -- . ; git -C /repo reset -q --hard; echo "cannot apply"; exit 2; }
-git -C /repo diff --name-only --diff-filter=U | grep -q . && { git -C /repo reset -q --hard; echo "cannot apply (conflict)"; exit 2; }
-git -C /repo reset -q   # 3-way leaves the result staged
-(cd /repo && GOFLAGS=-mod=mod GOPROXY=off GOSUMDB=off GOTOOLCHAIN=local go build ./... ) || echo "BUILD FAILS"
-for p in "$@"; do (cd /verif && ./check $p | tail -2); done
-git -C /repo checkout -- .
+V=$(cd "$(dirname "$0")" && pwd)
+R=${VERIF_REPO:-${VP_RUN_REPO:-/repo}}
+export VERIF_REPO=$R
+cd $R && git diff --quiet || { echo "repo dirty"; exit 2; }
+# a patch written against an older tree: fall back to a 3-way merge on the recorded blob ids
+git -C $R apply "$patch" 2>/dev/null || git -C $R apply --3way "$patch" >/dev/null 2>&1 || { git -C $R checkout -q -- . ; git -C $R reset -q --hard; echo "cannot apply"; exit 2; }
+git -C $R diff --name-only --diff-filter=U | grep -q . && { git -C $R reset -q --hard; echo "cannot apply (conflict)"; exit 2; }
+git -C $R reset -q   # 3-way leaves the result staged
+(cd $R && GOFLAGS=-mod=mod GOPROXY=off GOSUMDB=off GOTOOLCHAIN=local go build ./... ) || echo "BUILD FAILS"
+for p in "$@"; do (cd $V && ./check $p | tail -2); done
+git -C $R checkout -- .
+git -C $R clean -fdq -- cmd pkg internal
 # the runs above rewrote evidence/ from a MODIFIED tree: put the committed (clean-tree) evidence back
-git -C /verif checkout -- evidence
+git -C $V checkout -- evidence
